@@ -377,6 +377,26 @@ func dischargeAll(v *V, opts SolveOpts) {
 			os.WriteFile(fmt.Sprintf("%s/%s.%d.smt2", opts.DumpDir, sanitize(o.Name), o.Inst), []byte(s), 0o644)
 		}
 	}
+	// group stage: the unsplit goal in one query; success discharges all its conjuncts
+	{
+		var gs []*Obl
+		byWhole := map[*Obl]*OblGroup{}
+		for _, g := range v.groups {
+			gs = append(gs, g.Whole)
+			byWhole[g.Whole] = g
+		}
+		stage(gs, opts.Workers, func(o *Obl) {
+			s, _ := scripts(o, true)
+			r := runSolver(context.Background(), solvers[0], s, 2*quickT)
+			if r.status == "unsat" {
+				g := byWhole[o]
+				for _, m := range g.Members {
+					m.Status, m.Solver, m.Output, m.Stage = "unsat", r.solver+"(whole goal)", "", "whole"
+					m.TimeS = r.dur.Seconds() / float64(len(g.Members))
+				}
+			}
+		})
+	}
 	// stage 0: small neighbourhoods of the goal first (most obligations are local facts)
 	for _, depth := range []int{1, 3} {
 		depth := depth
@@ -396,7 +416,7 @@ func dischargeAll(v *V, opts SolveOpts) {
 			r := runSolver(context.Background(), solvers[0], s, 2*time.Second)
 			o.TimeS += r.dur.Seconds()
 			if r.status == "unsat" {
-				o.Status, o.Solver, o.Output = r.status, r.solver, r.out
+				o.Status, o.Solver, o.Output, o.Stage = r.status, r.solver, r.out, fmt.Sprintf("d%d", depth)
 			}
 		})
 	}
@@ -413,7 +433,7 @@ func dischargeAll(v *V, opts SolveOpts) {
 			os.WriteFile(fmt.Sprintf("%s/%s.%d.smt2", opts.DumpDir, sanitize(o.Name), o.Inst), []byte(s), 0o644)
 		}
 		r := runSolver(context.Background(), solvers[0], s, quickT)
-		o.Status, o.Solver, o.Output = r.status, r.solver, r.out
+		o.Status, o.Solver, o.Output, o.Stage = r.status, r.solver, r.out, "slice"
 		o.TimeS += r.dur.Seconds()
 		if r.status == "sat" {
 			o.Model = r.out
@@ -437,8 +457,13 @@ func dischargeAll(v *V, opts SolveOpts) {
 	stage(rest, w2, func(o *Obl) {
 		// second stage: full path condition (the sliced one may have dropped the reason a path is infeasible)
 		s, sc := scripts(o, false)
-		r := race(s, sc, opts.Timeout, nil)
-		o.Status, o.Solver, o.Output = r.status, r.solver, r.out
+		to := opts.Timeout
+		if o.Expect == "sat" && to > 8*time.Second && !opts.Thorough {
+			// vacuity guards: only "unsat" is an alarm; no point in searching long for a model
+			to = 8 * time.Second
+		}
+		r := race(s, sc, to, nil)
+		o.Status, o.Solver, o.Output, o.Stage = r.status, r.solver, r.out, "full"
 		o.TimeS += r.dur.Seconds()
 		if r.status == "sat" {
 			o.Model = r.out
